@@ -303,3 +303,8 @@ def _known_bom(sub, case, fail):
 
 
 KNOWN = {"bom-compressed": _known_bom}
+
+# the method interface reaches the same functions (shared exhaustive sub-check, see pv/fluent.py)
+from pv import fluent  # noqa: E402
+SUBS.append(fluent.sub(ID))
+RULE += fluent.RULE
